@@ -105,6 +105,35 @@ class Clock:
         self.now = self.now + datetime.timedelta(seconds=seconds)
 
 
+class TClock(Clock):
+    '''wall clock tied to a twisted task.Clock that stands in for the reactor:
+    advancing fires the delayed calls one by one, each at its own due time'''
+
+    def __init__(self, now):
+        from twisted.internet import task
+
+        self.t0 = now
+        self.tc = task.Clock()
+        super().__init__(now)
+
+    @property
+    def now(self):
+        return self.t0 + datetime.timedelta(seconds=self.tc.seconds())
+
+    @now.setter
+    def now(self, _v):
+        pass
+
+    def advance(self, seconds):
+        target = self.tc.seconds() + seconds
+        while True:
+            calls = sorted(self.tc.getDelayedCalls(), key=lambda c: c.getTime())
+            if not calls or calls[0].getTime() > target:
+                break
+            self.tc.advance(max(0.0, calls[0].getTime() - self.tc.seconds()))
+        self.tc.advance(max(0.0, target - self.tc.seconds()))
+
+
 class _AnyDateTime(type):
     def __instancecheck__(cls, obj):
         return isinstance(obj, datetime.datetime)
